@@ -318,6 +318,9 @@ struct Observed {
     attempts: u32,
     /// bytes of the transmission that was answered (or of the last one, if none was)
     sent: Vec<u8>,
+    /// ids of transmissions that were due a reply and never got one, although a retransmission of the very same
+    /// bytes was answered (the server received and answered the one, so it dropped the other or its reply)
+    unanswered_ids: Vec<u16>,
 }
 
 impl UdpClient {
@@ -352,6 +355,7 @@ impl UdpClient {
                 replies: Vec::new(),
                 attempts: 0,
                 sent: m.clone(),
+                unanswered_ids: Vec::new(),
             })
             .collect();
         // id -> (message index, bytes of that transmission)
@@ -421,6 +425,35 @@ impl UdpClient {
                 }
             }
             pending.retain(|&i| due[i] && obs[i].replies.is_empty());
+        }
+        // transmissions that needed a retransmission: give the earlier ids a last chance (1.5 s) to be answered late,
+        // then record the ones the server never answered
+        let retried: Vec<usize> = (0..msgs.len()).filter(|&i| due[i] && obs[i].attempts > 1 && !obs[i].replies.is_empty()).collect();
+        if !retried.is_empty() {
+            let outstanding = |rc: &HashMap<u16, u32>| -> Vec<(u16, usize)> {
+                id_to_tx
+                    .iter()
+                    .filter(|(id, (i, _))| retried.contains(i) && rc.get(*id).copied().unwrap_or(0) == 0)
+                    .map(|(id, (i, _))| (*id, *i))
+                    .collect()
+            };
+            let deadline = Instant::now() + Duration::from_millis(1500);
+            let mut buf = [0u8; 2048];
+            while !outstanding(&self.reply_count).is_empty() && Instant::now() < deadline {
+                if let Ok(n) = self.sock.recv(&mut buf) {
+                    if n >= 2 {
+                        let id = u16::from_be_bytes([buf[0], buf[1]]);
+                        if let Some(c) = self.reply_count.get_mut(&id) {
+                            *c += 1;
+                            continue;
+                        }
+                    }
+                    strays.push(buf[..n].to_vec());
+                }
+            }
+            for (id, i) in outstanding(&self.reply_count) {
+                obs[i].unanswered_ids.push(id);
+            }
         }
         (obs, strays)
     }
@@ -855,6 +888,17 @@ fn c09_mode(args: &Args, run: &Run, authoritative_only: bool, salt: u64) -> Resu
                 }
                 if o.replies.len() > 1 {
                     sh.violation("C09:more-than-one-reply", format!("{} replies to one message", o.replies.len()), replay());
+                    continue;
+                }
+                if !o.unanswered_ids.is_empty() {
+                    sh.violation(
+                        "C09:datagram-left-without-its-reply",
+                        format!(
+                            "transmission(s) with id {:?} never got a reply (waited >= 1.5 s) although a retransmission of the same bytes was answered",
+                            o.unanswered_ids
+                        ),
+                        replay(),
+                    );
                     continue;
                 }
                 let reply = &o.replies[0];
